@@ -181,4 +181,50 @@ def templates(cfg):
         return base >> p.group_by(base.g) >> p.summarize(n=p.count())
 
     T("slice_base_reused", slice_base_reused, slice_base_fresh)
+    # argument *containers* passed to verbs are the caller's objects too: a list of join keys,
+    # a list of arrange keys / group_by columns, a rename / map dict reused for a second verb
+    def on_list_reused(p, t, t2):
+        keys = ["a"]
+        _ = t >> p.inner_join(t2, keys)
+        left = t >> p.mutate(a=t.b)  # the name `a` now denotes another column of the left table
+        return left >> p.inner_join(t2, keys)
+
+    T("on_list_reused", on_list_reused, lambda p, t, t2: t >> p.mutate(a=t.b) >> p.inner_join(t2, ["a"]), TU2, nmax=2)
+
+    def on_list_reused_other_tables(p, t, u):
+        keys = ["a", "g"]
+        _ = t >> p.left_join(u, keys, suffix="_x")
+        return u >> p.left_join(t, keys, suffix="_y")
+
+    T("on_list_reused_other_tables", on_list_reused_other_tables, lambda p, t, u: u >> p.left_join(t, ["a", "g"], suffix="_y"), TU, nmax=2)
+
+    def on_list_mixed_reused(p, t, t2):
+        keys = ["a", t.b <= t2.c]
+        _ = t >> p.inner_join(t2, keys)
+        return t >> p.filter(t.b > 0) >> p.left_join(t2 >> p.filter(t2.c.is_not_null()), keys)
+
+    T("on_list_mixed_reused", on_list_mixed_reused, lambda p, t, t2: t >> p.filter(t.b > 0) >> p.left_join(t2 >> p.filter(t2.c.is_not_null()), ["a", t.b <= t2.c]), TU2, nmax=2)
+
+    def rename_dict_reused(p, t):
+        m = {"a": "x"}
+        _ = t >> p.rename(m)
+        _ = t >> p.rename(m) >> p.mutate(a=p.C.x)
+        return t >> p.select(t.a, t.b) >> p.rename(m)
+
+    T("rename_dict_reused", rename_dict_reused, lambda p, t: t >> p.select(t.a, t.b) >> p.rename({"a": "x"}))
+
+    def arrange_list_reused(p, t):
+        ks = [t.a.nulls_last(), t.b.nulls_last(), t.g.nulls_last()]
+        _ = t >> p.arrange(*ks) >> p.slice_head(1)
+        _ = t >> p.mutate(r=p.row_number(arrange=ks))
+        return t >> p.filter(t.g > 0) >> p.mutate(r=p.row_number(arrange=ks), s=t.b.shift(1, arrange=ks))
+
+    T("arrange_list_reused", arrange_list_reused, lambda p, t: t >> p.filter(t.g > 0) >> p.mutate(r=p.row_number(arrange=[t.a.nulls_last(), t.b.nulls_last(), t.g.nulls_last()]), s=t.b.shift(1, arrange=[t.a.nulls_last(), t.b.nulls_last(), t.g.nulls_last()])), nmax=2)
+
+    def map_dict_reused(p, t):
+        m = {0: 5, (1, 2): 7}
+        _ = t >> p.mutate(y=t.a.map(m))
+        return t >> p.mutate(y=t.b.map(m, default=t.a))
+
+    T("map_dict_reused", map_dict_reused, lambda p, t: t >> p.mutate(y=t.b.map({0: 5, (1, 2): 7}, default=t.a)))
     return out
